@@ -39,4 +39,13 @@ where
             Self::VcfGz(writer) => writer.write_variant_record(header, record),
         }
     }
+
+    pub(super) fn finish(&mut self) -> io::Result<()> {
+        match self {
+            Self::Bcf(writer) => writer.try_finish(),
+            Self::BcfRaw(writer) => writer.get_mut().flush(),
+            Self::Vcf(writer) => writer.get_mut().flush(),
+            Self::VcfGz(writer) => writer.get_mut().try_finish(),
+        }
+    }
 }
